@@ -215,4 +215,561 @@ Proof.
     eapply reaches_trans; [exact Hr1|]. rewrite rev_app_distr, <- app_assoc. exact Hr2.
 Qed.
 
+(* ---- list.remove ---- *)
+Lemma mem_In o l : mem o l = true <-> In o l.
+Proof.
+  unfold mem. rewrite existsb_exists. split.
+  - intros [x [Hin E]]. apply Nat.eqb_eq in E. now subst.
+  - intros H. exists o. split; [exact H|apply Nat.eqb_refl].
+Qed.
+
+Lemma mem_false o l : mem o l = false <-> ~ In o l.
+Proof. rewrite <- mem_In. destruct (mem o l); split; intros; congruence. Qed.
+
+Lemma remove1_notin o l : ~ In o l -> remove1 o l = l.
+Proof.
+  induction l as [|x t IH]; intros H; cbn; [reflexivity|].
+  destruct (Nat.eqb x o) eqn:E.
+  - apply Nat.eqb_eq in E. subst. exfalso. apply H. now left.
+  - f_equal. apply IH. intros Hin. apply H. now right.
+Qed.
+
+Lemma In_remove1 o l x : NoDup l -> (In x (remove1 o l) <-> In x l /\ x <> o).
+Proof.
+  induction l as [|y t IH]; intros Hnd; cbn; [tauto|].
+  inversion Hnd as [|? ? Hnin Hnd']; subst.
+  destruct (Nat.eqb y o) eqn:E.
+  - apply Nat.eqb_eq in E. subst y. split.
+    + intros Hin. split; [now right|]. intros ->. contradiction.
+    + intros [[->|Hin] Hne]; [contradiction|exact Hin].
+  - apply Nat.eqb_neq in E. cbn. rewrite (IH Hnd'). split.
+    + intros [->|[Hin Hne]]; [split; [now left|exact E]|split; [now right|exact Hne]].
+    + intros [[->|Hin] Hne]; [now left|right; split; assumption].
+Qed.
+
+Lemma NoDup_remove1 o l : NoDup l -> NoDup (remove1 o l).
+Proof.
+  induction l as [|y t IH]; intros Hnd; cbn; [constructor|].
+  inversion Hnd as [|? ? Hnin Hnd']; subst.
+  destruct (Nat.eqb y o); [exact Hnd'|]. constructor; [|now apply IH].
+  rewrite (In_remove1 o t y Hnd'). tauto.
+Qed.
+
+Lemma NoDup_app_single (l : list nat) o : NoDup l -> ~ In o l -> NoDup (l ++ [o]).
+Proof.
+  induction l as [|x t IH]; intros Hnd Hnin; cbn; [constructor; [intros []|constructor]|].
+  inversion Hnd as [|? ? Hx Ht]; subst. constructor.
+  - intros Hin. apply in_app_or in Hin. destruct Hin as [Hin|[<-|[]]]; [contradiction|]. apply Hnin. now left.
+  - apply IH; [exact Ht|]. intros Hin. apply Hnin. now right.
+Qed.
+
+Lemma flat_map_single {X Y} (f : X -> Y) (L : list X) : flat_map (fun o => [f o]) L = map f L.
+Proof. induction L; cbn; [reflexivity|now f_equal]. Qed.
+
+Lemma flat_map_empty {X Y} (L : list X) : flat_map (fun _ => @nil Y) L = [].
+Proof. induction L; cbn; [reflexivity|assumption]. Qed.
+
+(* ---- the simulation relation ---- *)
+Record R (s : @sstate A) (m : omap) (a : @abs A) : Prop := {
+  R_obs : observers s = ab_subs a;
+  R_nodup : NoDup (ab_subs a);
+  R_used : forall o, m o = None <-> mem o (ab_used a) = false;
+  R_handle : forall o os, m o = Some os -> handle os = true;
+  R_live : forall o, In o (ab_subs a) -> exists os, m o = Some os /\ live_obs os;
+  R_status : match g_status (ab_g a) with
+             | Live => is_stopped s = false /\ is_disposed s = false /\ exception s = None
+             | Ended (Err e) => is_stopped s = true /\ is_disposed s = false /\ exception s = Some e
+             | Ended Done => is_stopped s = true /\ is_disposed s = false /\ exception s = None
+             | Ended (Next _) => False
+             | Disposed => is_disposed s = true
+             end;
+  R_dead : live (ab_g a) = false -> ab_subs a = [];
+  R_val : g_status (ab_g a) <> Disposed ->
+          match K with
+          | KSubject => True
+          | KBehavior => value s = g_cur (ab_g a)
+          | KAsync => value s = g_cur (ab_g a) /\ has_value s = g_has (ab_g a)
+          end }.
+
+Lemma meqv_live_obs (m m' : omap) o :
+  meqv m m' -> (exists os, m o = Some os /\ live_obs os) -> exists os', m' o = Some os' /\ live_obs os'.
+Proof.
+  intros H [os [Hm (H1&H2&H3&H4)]]. specialize (H o). rewrite Hm in H.
+  destruct (m' o) as [os'|]; [|contradiction]. destruct H as (E1&E2&E3&E4&E5).
+  exists os'. split; [reflexivity|]. unfold live_obs. repeat split; congruence.
+Qed.
+
+Lemma live_obs_unstopped (m : omap) o :
+  (exists os, m o = Some os /\ live_obs os) -> exists os, m o = Some os /\ a_stopped os = false.
+Proof. intros [os [Hm (H1&_)]]. eauto. Qed.
+
+Lemma R_meqv s m m' a : R s m a -> meqv m m' -> R s m' a.
+Proof.
+  intros HR He. destruct HR as [H1 H2 H3 H4 H5 H6 H7 H8]. constructor; try assumption.
+  - intros o. rewrite <- H3. specialize (He o). destruct (m o), (m' o); try contradiction; split; congruence.
+  - intros o os' Hm'. specialize (He o). rewrite Hm' in He. destruct (m o) as [os|] eqn:Hm; [|contradiction].
+    destruct He as (_&_&_&_&E). rewrite <- E. eapply H4; eassumption.
+  - intros o Hin. apply (meqv_live_obs m m' o He). now apply H5.
+Qed.
+
+(* when nobody is subscribed only domain and handles of the table matter *)
+Lemma R_mdom s m m' a : R s m a -> ab_subs a = [] -> mdom m m' -> R s m' a.
+Proof.
+  intros HR Hnil Hd. destruct HR as [H1 H2 H3 H4 H5 H6 H7 H8]. constructor; try assumption.
+  - intros o. rewrite <- H3. specialize (Hd o). destruct (m o), (m' o); try contradiction; split; congruence.
+  - intros o os' Hm'. specialize (Hd o). rewrite Hm' in Hd. destruct (m o) as [os|] eqn:Hm; [|contradiction].
+    rewrite <- Hd. eapply H4; eassumption.
+  - rewrite Hnil. intros o [].
+Qed.
+
+Lemma R_subs_used s m a o : R s m a -> In o (ab_subs a) -> m o <> None.
+Proof. intros HR Hin. destruct (R_live _ _ _ HR o Hin) as [os [Hm _]]. congruence. Qed.
+
+Lemma ado_dispose_notmem (s : @sstate A) os o :
+  mem o (observers s) = false ->
+  fst (ado_dispose s os o) = s /\ handle (snd (ado_dispose s os o)) = handle os.
+Proof.
+  intros H. unfold ado_dispose. cbn [sad_disposed sad_cur a_stopped inner_obs handle calls].
+  destruct (sad_disposed os); [split; reflexivity|].
+  destruct (sad_cur os) as [[|]|]; cbn [sub_dispose]; try (split; reflexivity).
+  unfold inner_dispose. cbn [inner_obs]. destruct (negb (is_disposed s) && inner_obs os); [|split; reflexivity].
+  rewrite H. split; reflexivity.
+Qed.
+
+(* ---- what the overridden methods compute, in the vocabulary of the specification ---- *)
+Lemma sub_when_disposed s m a o :
+  R s m a -> g_status (ab_g a) = Disposed -> c_subscribe C s o = None.
+Proof.
+  intros HR Hg. pose proof (R_status _ _ _ HR) as Hs. rewrite Hg in Hs.
+  destruct K; cbn; unfold subj_subscribe, beh_subscribe, async_subscribe; now rewrite Hs.
+Qed.
+
+Lemma sub_when_live s m a o :
+  R s m a -> g_status (ab_g a) = Live ->
+  c_subscribe C s o = Some (set_observers (observers s ++ [o]) s, map (IDeliver o) (greet K (ab_g a)), SInner).
+Proof.
+  intros HR Hg. pose proof (R_status _ _ _ HR) as Hs. pose proof (R_val _ _ _ HR) as Hv.
+  rewrite Hg in Hs, Hv. destruct Hs as (H1&H2&H3). specialize (Hv ltac:(discriminate)).
+  unfold greet. rewrite Hg.
+  destruct K; cbn; unfold subj_subscribe, beh_subscribe, async_subscribe; rewrite H1, H2; cbn; try reflexivity.
+  now rewrite Hv.
+Qed.
+
+Lemma sub_when_ended s m a o t :
+  R s m a -> g_status (ab_g a) = Ended t ->
+  c_subscribe C s o = Some (s, map (IDeliver o) (greet K (ab_g a)), SPlain).
+Proof.
+  intros HR Hg. pose proof (R_status _ _ _ HR) as Hs. pose proof (R_val _ _ _ HR) as Hv.
+  rewrite Hg in Hs, Hv. specialize (Hv ltac:(discriminate)).
+  unfold greet, final. rewrite Hg.
+  destruct t as [x|e|]; [contradiction| |]; destruct Hs as (H1&H2&H3);
+  destruct K; cbn; unfold subj_subscribe, beh_subscribe, async_subscribe; rewrite H1, H2, H3; cbn; try reflexivity.
+  destruct Hv as [Hv1 Hv2]. rewrite Hv1, Hv2. now destruct (g_has (ab_g a)).
+Qed.
+
+(* greet of an ended subject: elements then one terminal *)
+Lemma greet_ended_shape (g : @gstate A) t :
+  g_status g = Ended t -> (match t with Next _ => False | _ => True end) ->
+  exists vs t', greet K g = map Next vs ++ [t'] /\ is_terminal t' = true.
+Proof.
+  intros Hg Ht. unfold greet, final. rewrite Hg. destruct t as [x|e|]; [contradiction| |].
+  - exists [], (Err e). split; reflexivity.
+  - destruct K; try (exists [], Done; split; reflexivity).
+    destruct (g_has g); [exists [g_cur g], Done|exists [], Done]; split; reflexivity.
+Qed.
+
+Lemma greet_live_shape (g : @gstate A) : g_status g = Live -> exists vs, greet K g = map Next vs.
+Proof.
+  intros Hg. unfold greet. rewrite Hg. destruct K; [exists []|exists [g_cur g]|exists []]; reflexivity.
+Qed.
+
+Definition sim_goal s m a p k l : Prop :=
+  exists s' m', reaches (Cfg s m (IOp p :: k) l)
+                        (Cfg s' m' k (rev (snd (spec_op K a p)) ++ EOp p :: l))
+                /\ R s' m' (fst (spec_op K a p)).
+
+Lemma mem_cons_other o o2 l : o2 <> o -> mem o2 (o :: l) = mem o2 l.
+Proof. intros H. unfold mem. cbn. destruct (Nat.eqb o2 o) eqn:E; [apply Nat.eqb_eq in E; contradiction|reflexivity]. Qed.
+
+Lemma mem_cons_same o l : mem o (o :: l) = true.
+Proof. unfold mem. cbn. now rewrite Nat.eqb_refl. Qed.
+
+Lemma sim_sub s m a o k l : R s m a -> sim_goal s m a (OSub o) k l.
+Proof.
+  intros HR. unfold sim_goal, spec_op. cbn [fst snd].
+  destruct (mem o (ab_used a)) eqn:Hu.
+  - (* id used before: the driver skips *)
+    cbn [fst snd rev app]. exists s, m. split; [|exact HR].
+    apply reaches_step_eq. unfold Subject.step, step_op. cbn [c_k c_st c_obs c_rlog].
+    destruct (m o) eqn:Hm; [reflexivity|]. apply (R_used _ _ _ HR) in Hm. congruence.
+  - assert (Hm : m o = None) by now apply (R_used _ _ _ HR).
+    assert (Hnotsub : ~ In o (ab_subs a)).
+    { intros Hin. exact (R_subs_used _ _ _ _ HR Hin Hm). }
+    cbn [fst snd].
+    destruct (g_status (ab_g a)) as [|t|] eqn:Hg.
+    + (* live *)
+      assert (Hl : live (ab_g a) = true) by (unfold live; now rewrite Hg). rewrite Hl.
+      destruct (greet_live_shape (ab_g a) Hg) as [vs Hvs].
+      set (s1 := set_observers (observers s ++ [o]) s).
+      destruct (deliver_nexts_one vs o s1 (upd m o fresh_ostate) (ISubRet o (Some SInner) :: k)
+                  (EOp (OSub o) :: l)) as [m1 [Hr1 He1]].
+      { exists fresh_ostate. split; [apply upd_same|reflexivity]. }
+      pose proof (He1 o) as Ho. rewrite upd_same in Ho. destruct (m1 o) as [os1|] eqn:Hm1; [|contradiction].
+      destruct Ho as (E1&E2&E3&E4&E5). cbn in E1, E2, E3, E4, E5.
+      set (osf := with_handle (OState (a_stopped os1) false (Some SInner) (inner_obs os1) (handle os1) (calls os1))).
+      exists s1, (upd m1 o osf). split.
+      * eapply reaches_trans; [apply reaches_step_eq|eapply reaches_trans; [|apply reaches_step_eq]].
+        -- unfold Subject.step, step_op. cbn [c_k c_st c_obs c_rlog]. rewrite Hm.
+           rewrite (sub_when_live s m a o HR Hg). rewrite Hvs. reflexivity.
+        -- exact Hr1.
+        -- rewrite Hvs. unfold Subject.step. cbn [c_k c_st c_obs c_rlog]. rewrite Hm1.
+           unfold sad_set. rewrite <- E2. reflexivity.
+      * destruct HR as [H1 H2 H3 H4 H5 H6 H7 H8]. constructor; cbn [ab_subs ab_used ab_g].
+        -- unfold s1. cbn. now rewrite H1.
+        -- apply NoDup_app_single; assumption.
+        -- intros o2. destruct (Nat.eq_dec o2 o) as [->|Hne].
+           ++ rewrite upd_same, mem_cons_same. split; discriminate.
+           ++ rewrite upd_other, mem_cons_other by exact Hne. rewrite <- H3.
+              specialize (He1 o2). rewrite upd_other in He1 by exact Hne.
+              destruct (m o2), (m1 o2); try contradiction; split; congruence.
+        -- intros o2 os2. destruct (Nat.eq_dec o2 o) as [->|Hne].
+           ++ rewrite upd_same. intros [= <-]. reflexivity.
+           ++ rewrite upd_other by exact Hne. intros Hm2. specialize (He1 o2).
+              rewrite upd_other, Hm2 in He1 by exact Hne. destruct (m o2) as [os0|] eqn:Hm0; [|contradiction].
+              destruct He1 as (_&_&_&_&E). rewrite <- E. eapply H4; eassumption.
+        -- intros o2 Hin. apply in_app_or in Hin. destruct Hin as [Hin|[<-|[]]].
+           ++ assert (Hne : o2 <> o) by (intros ->; contradiction).
+              rewrite upd_other by exact Hne. apply (meqv_live_obs (upd m o fresh_ostate) m1 o2 He1).
+              rewrite upd_other by exact Hne. now apply H5.
+           ++ rewrite upd_same. exists osf. split; [reflexivity|]. unfold osf, live_obs. cbn.
+              repeat split; congruence.
+        -- rewrite Hg in *. exact H6.
+        -- intros Hd. congruence.
+        -- exact H8.
+    + (* ended *)
+      assert (Hl : live (ab_g a) = false) by (unfold live; now rewrite Hg). rewrite Hl.
+      assert (Htt : match t with Next _ => False | _ => True end).
+      { pose proof (R_status _ _ _ HR) as Hs. rewrite Hg in Hs. destruct t; [contradiction|exact I|exact I]. }
+      destruct (greet_ended_shape (ab_g a) t Hg Htt) as [vs [t' [Hvs Ht']]].
+      destruct (deliver_final_one vs t' o s (upd m o fresh_ostate) (ISubRet o (Some SPlain) :: k)
+                  (EOp (OSub o) :: l) Ht') as [m1 [Hr1 [Hd1 [Ho1 [os1 [Hm1 [Hs1 Hsd1]]]]]]].
+      { exists fresh_ostate. split; [apply upd_same|]. split; [reflexivity|now left]. }
+      exists s, (upd m1 o (with_handle os1)). split.
+      * eapply reaches_trans; [apply reaches_step_eq|eapply reaches_trans; [|apply reaches_step_eq]].
+        -- unfold Subject.step, step_op. cbn [c_k c_st c_obs c_rlog]. rewrite Hm.
+           rewrite (sub_when_ended s m a o t HR Hg). rewrite Hvs. reflexivity.
+        -- exact Hr1.
+        -- rewrite Hvs. unfold Subject.step. cbn [c_k c_st c_obs c_rlog]. rewrite Hm1.
+           unfold sad_set. rewrite Hsd1. reflexivity.
+      * destruct HR as [H1 H2 H3 H4 H5 H6 H7 H8]. constructor; cbn [ab_subs ab_used ab_g]; try assumption.
+        -- intros o2. destruct (Nat.eq_dec o2 o) as [->|Hne].
+           ++ rewrite upd_same, mem_cons_same. split; discriminate.
+           ++ rewrite upd_other, mem_cons_other by exact Hne. rewrite <- H3.
+              rewrite (Ho1 o2 Hne), upd_other by exact Hne. reflexivity.
+        -- intros o2 os2. destruct (Nat.eq_dec o2 o) as [->|Hne].
+           ++ rewrite upd_same. intros [= <-]. reflexivity.
+           ++ rewrite upd_other, (Ho1 o2 Hne), upd_other by exact Hne. apply H4.
+        -- intros o2 Hin. assert (Hne : o2 <> o) by (intros ->; contradiction).
+           rewrite upd_other, (Ho1 o2 Hne), upd_other by exact Hne. now apply H5.
+    + (* disposed: _subscribe_core raises, fail() hands the exception to the observer *)
+      assert (Hl : live (ab_g a) = false) by (unfold live; now rewrite Hg). rewrite Hl.
+      set (os0 := called true fresh_ostate).
+      exists s, (upd (upd m o os0) o (with_handle os0)). split.
+      * eapply reaches_trans; [apply reaches_step_eq|apply reaches_step_eq].
+        -- unfold Subject.step, step_op. cbn [c_k c_st c_obs c_rlog]. rewrite Hm.
+           rewrite (sub_when_disposed s m a o HR Hg). reflexivity.
+        -- unfold Subject.step, silent. cbn [c_k c_st c_obs c_rlog map app]. rewrite upd_same.
+           unfold greet. rewrite Hg. reflexivity.
+      * destruct HR as [H1 H2 H3 H4 H5 H6 H7 H8]. constructor; cbn [ab_subs ab_used ab_g]; try assumption.
+        -- intros o2. destruct (Nat.eq_dec o2 o) as [->|Hne].
+           ++ rewrite upd_same, mem_cons_same. split; discriminate.
+           ++ rewrite !upd_other, mem_cons_other by exact Hne. apply H3.
+        -- intros o2 os2. destruct (Nat.eq_dec o2 o) as [->|Hne].
+           ++ rewrite upd_same. intros [= <-]. reflexivity.
+           ++ rewrite !upd_other by exact Hne. apply H4.
+        -- intros o2 Hin. assert (Hne : o2 <> o) by (intros ->; contradiction).
+           rewrite !upd_other by exact Hne. now apply H5.
+Qed.
+
+Lemma live_of_status (g : @gstate A) : live g = true <-> g_status g = Live.
+Proof. unfold live. destruct (g_status g); split; intros; congruence. Qed.
+
+Lemma sim_unsub s m a o k l : R s m a -> sim_goal s m a (OUnsub o) k l.
+Proof.
+  intros HR. unfold sim_goal, spec_op. cbn [fst snd rev app].
+  destruct (m o) as [os|] eqn:Hm.
+  2:{ (* unknown id: no handle *)
+    assert (Hnin : ~ In o (ab_subs a)) by (intros Hin; exact (R_subs_used _ _ _ _ HR Hin Hm)).
+    rewrite (remove1_notin o _ Hnin). exists s, m. split; [|destruct a; exact HR].
+    apply reaches_step_eq. unfold Subject.step, step_op. cbn [c_k c_st c_obs c_rlog]. now rewrite Hm. }
+  assert (Hh : handle os = true) by (eapply R_handle; eassumption).
+  destruct (in_dec Nat.eq_dec o (ab_subs a)) as [Hin|Hnin].
+  - (* currently subscribed: InnerSubscription.dispose removes it *)
+    destruct (R_live _ _ _ HR o Hin) as [os' [Hm' (L1&L2&L3&L4)]]. rewrite Hm in Hm'. injection Hm' as <-.
+    assert (Hlive : live (ab_g a) = true).
+    { destruct (live (ab_g a)) eqn:E; [reflexivity|]. rewrite (R_dead _ _ _ HR E) in Hin. destruct Hin. }
+    pose proof (R_status _ _ _ HR) as Hst. apply live_of_status in Hlive. rewrite Hlive in Hst.
+    destruct Hst as (S1&S2&S3).
+    set (s1 := set_observers (remove1 o (observers s)) s).
+    set (os1 := OState true true None false (handle os) (calls os)).
+    exists s1, (upd m o os1). split.
+    + apply reaches_step_eq. unfold Subject.step, step_op. cbn [c_k c_st c_obs c_rlog]. rewrite Hm, Hh.
+      unfold ado_dispose. cbn [sad_disposed sad_cur a_stopped inner_obs handle calls]. rewrite L2, L3.
+      cbn [sub_dispose]. unfold inner_dispose. cbn [inner_obs]. rewrite S2, L4. cbn [negb andb].
+      replace (mem o (observers s)) with true; [reflexivity|].
+      symmetry. apply mem_In. now rewrite (R_obs _ _ _ HR).
+    + destruct HR as [H1 H2 H3 H4 H5 H6 H7 H8]. constructor; cbn [ab_subs ab_used ab_g]; try assumption.
+      * unfold s1. cbn. now rewrite H1.
+      * now apply NoDup_remove1.
+      * intros o2. destruct (Nat.eq_dec o2 o) as [->|Hne].
+        -- rewrite upd_same. rewrite <- H3. split; intros; congruence.
+        -- rewrite upd_other by exact Hne. apply H3.
+      * intros o2 os2. destruct (Nat.eq_dec o2 o) as [->|Hne].
+        -- rewrite upd_same. intros [= <-]. exact Hh.
+        -- rewrite upd_other by exact Hne. apply H4.
+      * intros o2 Hin2. apply (In_remove1 o _ o2 H2) in Hin2. destruct Hin2 as [Hin2 Hne].
+        rewrite upd_other by exact Hne. now apply H5.
+      * intros Hd. rewrite (H7 Hd). reflexivity.
+  - (* not (or no longer) subscribed: only the wrapper is stopped *)
+    rewrite (remove1_notin o _ Hnin).
+    assert (Hnm : mem o (observers s) = false) by (apply mem_false; now rewrite (R_obs _ _ _ HR)).
+    destruct (ado_dispose_notmem s os o Hnm) as [Hk1 Hk2].
+    exists s, (upd m o (snd (ado_dispose s os o))). split.
+    + apply reaches_step_eq. unfold Subject.step, step_op. cbn [c_k c_st c_obs c_rlog]. rewrite Hm, Hh.
+      destruct (ado_dispose s os o) as [s' os'] eqn:E. cbn [fst snd] in *. now subst s'.
+    + destruct a as [subs used g]. cbn [ab_subs ab_used ab_g] in *.
+      destruct HR as [H1 H2 H3 H4 H5 H6 H7 H8]. constructor; cbn [ab_subs ab_used ab_g] in *; try assumption.
+      * intros o2. destruct (Nat.eq_dec o2 o) as [->|Hne].
+        -- rewrite upd_same. rewrite <- H3. split; intros; congruence.
+        -- rewrite upd_other by exact Hne. apply H3.
+      * intros o2 os2. destruct (Nat.eq_dec o2 o) as [->|Hne].
+        -- rewrite upd_same. intros [= <-]. now rewrite Hk2.
+        -- rewrite upd_other by exact Hne. apply H4.
+      * intros o2 Hin2. assert (Hne : o2 <> o) by (intros ->; contradiction).
+        rewrite upd_other by exact Hne. now apply H5.
+Qed.
+
+Lemma sim_dispose s m a k l : R s m a -> sim_goal s m a ODispose k l.
+Proof.
+  intros HR. unfold sim_goal, spec_op. cbn [fst snd rev app g_step].
+  exists (c_dispose C s), m. split.
+  - apply reaches_step_eq. reflexivity.
+  - destruct HR as [H1 H2 H3 H4 H5 H6 H7 H8]. constructor; cbn [ab_subs ab_used ab_g g_status]; try assumption.
+    + destruct K; reflexivity.
+    + constructor.
+    + intros o [].
+    + destruct K; reflexivity.
+    + reflexivity.
+    + intros H. congruence.
+Qed.
+
+(* the deliveries an accepted emission makes, per class *)
+Lemma next_when_live s m a v :
+  R s m a -> g_status (ab_g a) = Live ->
+  exists s', c_next C s v = (s', flat_map (fun o => map (IDeliver o) (bcast K (ab_g a) (ONext v))) (observers s))
+             /\ observers s' = observers s /\ is_stopped s' = is_stopped s /\ is_disposed s' = is_disposed s
+             /\ exception s' = exception s
+             /\ match K with
+                | KSubject => True
+                | KBehavior => value s' = v
+                | KAsync => value s' = v /\ has_value s' = true
+                end.
+Proof.
+  intros HR Hg. unfold bcast, live. rewrite Hg.
+  destruct K; cbn [cls_of c_next subject_cls behavior_cls async_cls];
+    unfold subj_next, beh_next, async_next.
+  - exists s. split; [|repeat split]. now rewrite <- flat_map_single.
+  - exists (set_value v s). split; [|repeat split]. now rewrite <- flat_map_single.
+  - exists (set_has_value true (set_value v s)). split; [|repeat split]. cbn [map]. now rewrite flat_map_empty.
+Qed.
+
+Lemma error_any (s : @sstate A) e :
+  c_error C s e = (set_exception (Some e) (set_observers [] s),
+                   flat_map (fun o => map (IDeliver o) [Err e]) (observers s)).
+Proof. destruct K; cbn; unfold subj_error; now rewrite <- flat_map_single. Qed.
+
+Lemma completed_when_live s m a :
+  R s m a -> g_status (ab_g a) = Live ->
+  c_completed C (set_stopped true s) =
+    (set_observers [] (set_stopped true s),
+     flat_map (fun o => map (IDeliver o) (bcast K (ab_g a) ODone)) (observers s)).
+Proof.
+  intros HR Hg. pose proof (R_val _ _ _ HR) as Hv. rewrite Hg in Hv. specialize (Hv ltac:(discriminate)).
+  unfold bcast, live, final. rewrite Hg.
+  destruct K; cbn [cls_of c_completed subject_cls behavior_cls async_cls];
+    unfold subj_completed, async_completed; cbn [observers set_stopped has_value value].
+  - now rewrite <- flat_map_single.
+  - now rewrite <- flat_map_single.
+  - destruct Hv as [Hv1 Hv2]. rewrite Hv1, Hv2. destruct (g_has (ab_g a)); [reflexivity|].
+    now rewrite <- flat_map_single.
+Qed.
+
+Lemma bcast_dead (g : @gstate A) p : live g = false -> bcast K g p = [].
+Proof. intros H. unfold bcast. now rewrite H. Qed.
+
+Lemma g_step_dead (g : @gstate A) p : live g = false -> p <> ODispose -> g_step g p = g.
+Proof. intros H Hp. destruct p; cbn; rewrite ?H; try reflexivity. congruence. Qed.
+
+Lemma bcast_next_shape (g : @gstate A) v : exists vs, bcast K g (ONext v) = map Next vs.
+Proof.
+  unfold bcast. destruct (live g); [|exists []; reflexivity].
+  destruct K; [exists [v]|exists [v]|exists []]; reflexivity.
+Qed.
+
+Lemma bcast_done_shape (g : @gstate A) :
+  live g = true -> exists vs, bcast K g ODone = map Next vs ++ [Done].
+Proof.
+  intros H. unfold bcast, final. rewrite H.
+  destruct K; try (exists []; reflexivity).
+  destruct (g_has g); [exists [g_cur g]|exists []]; reflexivity.
+Qed.
+
+Lemma R_unstopped s m a o :
+  R s m a -> In o (ab_subs a) -> exists os, m o = Some os /\ a_stopped os = false.
+Proof. intros HR Hin. apply live_obs_unstopped. now apply (R_live _ _ _ HR). Qed.
+
+(* an emission that arrives when the subject is ended or disposed *)
+Lemma sim_emit_dead s m a p k l :
+  R s m a -> is_emission p = true -> live (ab_g a) = false -> sim_goal s m a p k l.
+Proof.
+  intros HR Hp Hl. unfold sim_goal.
+  assert (Hsub : ab_subs a = []) by now apply (R_dead _ _ _ HR).
+  assert (Hspec : spec_op K a p =
+          (a, match g_status (ab_g a) with Disposed => [ERaised disposed_exn] | _ => [] end)).
+  { destruct a as [subs used g]. cbn [ab_subs ab_used ab_g] in *. subst subs.
+    destruct p; try discriminate; unfold spec_op; cbn [ab_subs ab_used ab_g flat_map];
+      rewrite g_step_dead by (assumption || discriminate); rewrite Hl, app_nil_r; reflexivity. }
+  rewrite Hspec. cbn [fst snd]. exists s, m. split; [|exact HR].
+  pose proof (R_status _ _ _ HR) as Hst. unfold live in Hl.
+  apply reaches_step_eq. unfold Subject.step, step_op. cbn [c_k c_st c_obs c_rlog].
+  destruct (g_status (ab_g a)) as [|t|]; [discriminate| |].
+  - assert (Hf : is_stopped s = true /\ is_disposed s = false).
+    { destruct t; [contradiction|tauto|tauto]. }
+    destruct Hf as [Hf1 Hf2]. destruct p; try discriminate; rewrite Hf1, Hf2; reflexivity.
+  - destruct p; try discriminate; rewrite Hst; reflexivity.
+Qed.
+
+Lemma sim_next s m a v k l : R s m a -> sim_goal s m a (ONext v) k l.
+Proof.
+  intros HR. destruct (live (ab_g a)) eqn:Hl; [|now apply sim_emit_dead].
+  pose proof Hl as Hg. apply live_of_status in Hg.
+  unfold sim_goal, spec_op. cbn [fst snd g_step]. rewrite Hl, Hg. cbn [live g_status app].
+  destruct (next_when_live s m a v HR Hg) as [s' [Hn (N1&N2&N3&N4&N5)]].
+  destruct (bcast_next_shape (ab_g a) v) as [vs Hvs]. rewrite Hvs in *.
+  pose proof (R_status _ _ _ HR) as Hst. rewrite Hg in Hst. destruct Hst as (S1&S2&S3).
+  destruct (deliver_all_nexts vs (observers s) s' m k (EOp (ONext v) :: l)) as [m' [Hr He]].
+  { intros o Hin. rewrite (R_obs _ _ _ HR) in Hin. now apply (R_unstopped s m a). }
+  exists s', m'. split.
+  - eapply reaches_trans; [apply reaches_step_eq|].
+    + unfold Subject.step, step_op. cbn [c_k c_st c_obs c_rlog]. rewrite S1, S2, Hn. reflexivity.
+    + rewrite <- (R_obs _ _ _ HR). exact Hr.
+  - apply (R_meqv s' m m'); [|exact He].
+    destruct HR as [H1 H2 H3 H4 H5 H6 H7 H8]. constructor; cbn [ab_subs ab_used ab_g g_status g_cur g_has]; try assumption.
+    + congruence.
+    + rewrite N2, N3, N4. tauto.
+    + cbn. discriminate.
+    + intros _. destruct K; [exact I|exact N5|exact N5].
+Qed.
+
+Lemma sim_final s m a p k l (t : ev A) :
+  R s m a -> live (ab_g a) = true ->
+  ((exists e, p = OErr e /\ t = Err e) \/ (p = ODone /\ t = Done)) ->
+  sim_goal s m a p k l.
+Proof.
+  intros HR Hl Hp. pose proof Hl as Hg. apply live_of_status in Hg.
+  pose proof (R_status _ _ _ HR) as Hst. rewrite Hg in Hst. destruct Hst as (S1&S2&S3).
+  assert (Hshape : exists vs, bcast K (ab_g a) p = map Next vs ++ [t] /\ is_terminal t = true).
+  { destruct Hp as [[e [-> ->]]|[-> ->]].
+    - exists []. unfold bcast. rewrite Hl. split; reflexivity.
+    - destruct (bcast_done_shape (ab_g a) Hl) as [vs Hvs]. exists vs. split; [exact Hvs|reflexivity]. }
+  destruct Hshape as [vs [Hvs Ht]].
+  set (s1 := match t with Err e => set_exception (Some e) (set_observers [] (set_stopped true s))
+                     | _ => set_observers [] (set_stopped true s) end).
+  assert (Hstep : stepf (Cfg s m (IOp p :: k) l) =
+                  Cfg s1 m (flat_map (fun o => map (IDeliver o) (map Next vs ++ [t])) (observers s) ++ k)
+                      (EOp p :: l)).
+  { unfold Subject.step, step_op. cbn [c_k c_st c_obs c_rlog].
+    destruct Hp as [[e [-> ->]]|[-> ->]]; rewrite S1, S2.
+    - rewrite error_any. cbn [observers set_stopped]. unfold bcast in Hvs. rewrite Hl in Hvs. rewrite <- Hvs. reflexivity.
+    - rewrite (completed_when_live s m a HR Hg). rewrite Hvs. reflexivity. }
+  assert (Hobs1 : observers s1 = []) by (unfold s1; destruct t; reflexivity).
+  destruct (deliver_all_final vs t (observers s) s1 m k (EOp p :: l) Ht Hobs1) as [m' [Hr Hd]].
+  { rewrite (R_obs _ _ _ HR). exact (R_nodup _ _ _ HR). }
+  { intros o Hin. rewrite (R_obs _ _ _ HR) in Hin. now apply (R_unstopped s m a). }
+  assert (Hg' : g_step (ab_g a) p = G (Ended t) (g_cur (ab_g a)) (g_has (ab_g a))).
+  { destruct Hp as [[e [-> ->]]|[-> ->]]; cbn [g_step]; now rewrite Hl. }
+  unfold sim_goal.
+  assert (Hspec : spec_op K a p =
+          (Abs [] (ab_used a) (G (Ended t) (g_cur (ab_g a)) (g_has (ab_g a))),
+           flat_map (fun o => map (EGot o) (map Next vs ++ [t])) (ab_subs a))).
+  { unfold spec_op. rewrite Hg', Hg, Hvs. cbn [live g_status app].
+    destruct Hp as [[e [-> _]]|[-> _]]; reflexivity. }
+  rewrite Hspec. cbn [fst snd].
+  exists s1, m'. split.
+  - eapply reaches_trans; [apply reaches_step_eq; exact Hstep|].
+    rewrite <- (R_obs _ _ _ HR). exact Hr.
+  - apply (R_mdom s1 m m'); [|reflexivity|exact Hd].
+    destruct HR as [H1 H2 H3 H4 H5 H6 H7 H8]. constructor; cbn [ab_subs ab_used ab_g g_status g_cur g_has]; try assumption.
+    + constructor.
+    + intros o [].
+    + unfold s1. destruct Hp as [[e [_ ->]]|[_ ->]]; cbn; repeat split; assumption.
+    + reflexivity.
+    + intros _. rewrite Hg in H8. specialize (H8 ltac:(discriminate)).
+      unfold s1. destruct t; exact H8.
+Qed.
+
+Theorem sim_op s m a p k l : R s m a -> sim_goal s m a p k l.
+Proof.
+  intros HR. destruct p as [o|o|v|e| |].
+  - now apply sim_sub.
+  - now apply sim_unsub.
+  - now apply sim_next.
+  - destruct (live (ab_g a)) eqn:Hl; [|now apply sim_emit_dead].
+    apply (sim_final s m a (OErr e) k l (Err e) HR Hl). left. exists e. split; reflexivity.
+  - destruct (live (ab_g a)) eqn:Hl; [|now apply sim_emit_dead].
+    apply (sim_final s m a ODone k l Done HR Hl). right. split; reflexivity.
+  - now apply sim_dispose.
+Qed.
+
+(* ---- whole histories ---- *)
+Lemma sim_history : forall h s m a l,
+  R s m a ->
+  exists s' m', reaches (Cfg s m (map IOp h) l) (Cfg s' m' [] (rev (spec_from K a h) ++ l)).
+Proof.
+  induction h as [|p h IH]; intros s m a l HR.
+  - exists s, m. apply reaches_refl.
+  - cbn [map spec_from]. destruct (sim_op s m a p (map IOp h) l HR) as [s1 [m1 [Hr1 HR1]]].
+    destruct (spec_op K a p) as [a' out]. cbn [fst snd] in *.
+    destruct (IH s1 m1 a' (rev out ++ EOp p :: l) HR1) as [s2 [m2 Hr2]].
+    exists s2, m2. eapply reaches_trans; [exact Hr1|].
+    replace (rev (EOp p :: out ++ spec_from K a' h) ++ l)
+      with (rev (spec_from K a' h) ++ rev out ++ EOp p :: l); [exact Hr2|].
+    cbn [rev]. rewrite rev_app_distr, <- !app_assoc. reflexivity.
+Qed.
+
+Lemma R_init v0 : R (init_state v0) (fun _ => None) (Abs [] [] (g_init v0)).
+Proof.
+  constructor; cbn; try reflexivity; try tauto.
+  - constructor.
+  - intros o os H. discriminate.
+  - intros o [].
+  - intros _. destruct K; [exact I|reflexivity|split; reflexivity].
+Qed.
+
+(* C20/C21/C23, refinement: on every history of top-level calls the class
+   produces exactly the log of the abstract broadcast specification, and the run
+   terminates (for all sufficiently large fuel) *)
+Theorem refines_spec (v0 : A) (h : list (@op A)) :
+  exists fuel0, forall fuel, (fuel0 <= fuel)%nat ->
+    run_history C v0 fuel (h, []) = (spec K v0 h, true).
+Proof.
+  destruct (sim_history h (init_state v0) (fun _ => None) (Abs [] [] (g_init v0)) [] (R_init v0))
+    as [s' [m' [n Hn]]].
+  exists n. intros fuel Hle. unfold run_history. cbn [fst snd].
+  change (run C (react_tbl []) fuel (init_cfg v0 h)) with (runf fuel (init_cfg v0 h)).
+  replace fuel with (n + (fuel - n))%nat by lia. rewrite run_add.
+  unfold init_cfg. rewrite Hn. rewrite run_done by reflexivity.
+  unfold log_of, finished, spec. cbn [c_rlog c_k]. now rewrite app_nil_r, rev_involutive.
+Qed.
+
 End Flat.
